@@ -1,5 +1,6 @@
 SPECIFICATION Spec
 CONSTANTS
+  HeaderWidth = 7
   MaxWidth = 5
 INVARIANT Inv_PositionBijection
 INVARIANT Inv_RejectsMissing
